@@ -95,22 +95,32 @@ def rule_gates(ctx):
     fi = ctx.index.func(RECLAYER + "_decryptStreamThenMAC")
     g = ctx.an.cfg(fi)
     cut = {(t.id, "F") for t in g.nodes if t.kind == "test" and norm(t.expr) == "self._readState.macContext"}
-    bad = [n for n in g.nodes if n.kind == "stmt" and norm(n.ast) == "macGood = False"]
-    ctx.require(len(bad) >= 2, "C02.GATE-STREAM: macGood = False assignments not found")
-    for b in bad:
-        c2 = flag_cuts_from(g, [b], "macGood")
-        seen = g.reach(g.normal_succ(b), cut=c2)
-        ctx.check(R, not any(r.id in seen for r in _rets(g)), fi.qname,
-                  "macGood = False (#%d) leads only to TLSBadRecordMAC" % b.line,
-                  "after a failed MAC/length check the record can still be returned", fi.loc(b.ast))
-    cmp_ = [t for t in g.nodes if t.kind == "test" and norm(t.expr) == "not ct_compare_digest(macBytes, checkBytes)"]
-    short = [t for t in g.nodes if t.kind == "test" and norm(t.expr) == "endLength > len(data)"]
-    okf = bool(cmp_) and all(any(m in bad for m in g.succ_on(t, "T")) for t in cmp_) and \
-        bool(short) and all(any(m in bad for m in g.succ_on(t, "T")) for t in short)
-    ctx.check(R, okf, fi.qname, "failed compare / short record set macGood = False",
-              "a failed MAC comparison (or a record shorter than the MAC) must clear macGood", fi.loc())
-    must_pass(ctx, R, fi, g, [g.entry], _rets(g), cmp_ + short, "MAC compared on every accepting path",
-              "a stream-cipher record can be accepted without comparing its MAC", cut=cut, start_after=False)
+    from .common import effective_labels
+    rets = _rets(g)
+    cmp_ = [t for t in g.nodes if t.kind == "test" and any(call_name(c) == "ct_compare_digest" for c in calls_in(t.expr))]
+    short = [t for t in g.nodes if t.kind == "test" and isinstance(t.expr, ast.Compare)
+             and "len(data)" in norm(t.expr) and not cmp_.count(t)
+             and {x.id for x in ast.walk(t.expr) if isinstance(x, ast.Name)} & {"macLength", "endLength"}]
+    ctx.require(bool(cmp_) and bool(short), "C02.GATE-STREAM: MAC comparison / record length check not found")
+    effc = [t for t in cmp_ if effective_labels(g, t, rets)]
+    effs = [t for t in short if effective_labels(g, t, rets)]
+    for t in cmp_ + short:
+        ctx.check(R, t in effc or t in effs, fi.qname, "`%s` failing leads only to TLSBadRecordMAC" % norm(t.expr)[:50],
+                  "after a failed MAC/length check the record can still be returned", fi.loc(t.ast))
+    for t in cmp_:
+        # which outcome of the test is the failure: the comparison is negated exactly when T aborts
+        neg = isinstance(t.expr, ast.UnaryOp) and isinstance(t.expr.op, ast.Not)
+        labs = effective_labels(g, t, rets)
+        ctx.check(R, labs == (["T"] if neg else ["F"]), fi.qname, "a MAC mismatch (not a match) is what is refused",
+                  "the MAC comparison `%s` aborts on the wrong outcome" % norm(t.expr)[:60], fi.loc(t.ast))
+    cut2 = set(cut) | {(t.id, lab) for t in effs for lab in effective_labels(g, t, rets)}
+    must_pass(ctx, R, fi, g, [g.entry], rets, effc, "MAC compared on every accepting path",
+              "a stream-cipher record can be accepted without comparing its MAC", cut=cut2, start_after=False)
+    calc = [n for n in g.nodes if n.kind == "stmt" and "self.calculateMAC(" in norm(n.ast)]
+    if calc:
+        seen = g.reach([g.entry], blocked=effs, cut=cut)
+        ctx.check(R, calc[0].id not in seen, fi.qname, "record at least as long as the MAC before the MAC is cut off",
+                  "the MAC is sliced off a record that may be shorter than the MAC", fi.loc(calc[0].ast))
     _mac_inputs(ctx, R, fi, g, "data")
 
 
